@@ -80,3 +80,24 @@ Theorem C05_marlin_batch_proof_count :
     length pfs <> length zs -> mbatch_check vk cs qs ev pfs chal vtape = Panic.
 Proof. exact @mbatch_check_proof_count. Qed.
 Print Assumptions C05_marlin_batch_proof_count.
+
+(* the default batch verifier of the trait (Hyrax, Ligero, Brakedown), for any scheme: its verdict is the conjunction of
+   the verdicts of the scheme's own check on the groups of the query set (ascending point labels, ascending labels in a
+   group), taken in order on the shared transcript; an error or abort of a group is the result; a proof list of another
+   length than the number of groups aborts *)
+From PC Require Import Schemes.DefaultBatch Proofs.DefaultBatchFacts.
+Theorem C05_default_batch_is_and :
+  forall (FO : FieldOps) (Comm Proof St : Type) (check : list Comm -> point -> list F -> Proof -> St -> res (bool * St))
+         cs qs ev proofs st,
+    length proofs = length (groups qs) ->
+    default_batch_check Comm Proof St check cs qs ev proofs st
+    = (do r <- bverdicts Comm Proof St check (label_map cs) ev (groups qs) proofs st; Ok (forallb (fun b => b) (fst r), snd r)).
+Proof. exact @default_batch_is_and. Qed.
+Print Assumptions C05_default_batch_is_and.
+
+Theorem C05_default_batch_wrong_count :
+  forall (FO : FieldOps) (Comm Proof St : Type) (check : list Comm -> point -> list F -> Proof -> St -> res (bool * St))
+         cs qs ev proofs st,
+    length proofs <> length (groups qs) -> default_batch_check Comm Proof St check cs qs ev proofs st = Panic.
+Proof. exact @default_batch_wrong_count. Qed.
+Print Assumptions C05_default_batch_wrong_count.
